@@ -45,11 +45,17 @@ func (a *AzimuthalEquidistant) Forward(lonLat geom.XY) geom.XY {
 	λ0r := dtor(a.centerLonLat.X)
 	φ0r := dtor(a.centerLonLat.Y)
 
-	ρ := R * acos(sin(φ0r)*sin(φr)+cos(φ0r)*cos(φr)*cos(λr-λ0r))
-	θ := atan2(
-		cos(φr)*sin(λr-λ0r),
-		cos(φ0r)*sin(φr)-sin(φ0r)*cos(φr)*cos(λr-λ0r),
+	// The angular distance from the center is calculated using atan2 rather
+	// than acos of the cosine alone. The latter loses half of the available
+	// precision close to the center (acos has an infinite derivative at 1), to
+	// the point where the center itself doesn't map to the origin.
+	var (
+		east   = cos(φr) * sin(λr-λ0r)
+		north  = cos(φ0r)*sin(φr) - sin(φ0r)*cos(φr)*cos(λr-λ0r)
+		cosDst = sin(φ0r)*sin(φr) + cos(φ0r)*cos(φr)*cos(λr-λ0r)
 	)
+	ρ := R * atan2(sqrt(east*east+north*north), cosDst)
+	θ := atan2(east, north)
 	return geom.XY{
 		X: ρ * sin(θ),
 		Y: ρ * cos(θ),
